@@ -1072,6 +1072,11 @@ class Interp:
         v = self.eval(e.value, frame) if e.value is not None else None
         if frame.yields is None:
             raise OutOfSubset("yield outside generator frame")
+        flt = getattr(self, "yield_filter", None)
+        if flt is not None and not flt(v):
+            # the contract observes a projection of the output (e.g. without None placeholders); it counts what it drops
+            self.yields_dropped = getattr(self, "yields_dropped", 0) + 1
+            return None
         frame.yields.append(v)
         return None
 
